@@ -752,4 +752,3 @@ func doRecover(caller *frame) value {
 	}
 	return iface{}
 }
-
